@@ -1,71 +1,770 @@
+// C26: with sandboxing enabled no Ego program can read, create, modify, list,
+// stat or delete anything outside the sandbox root, through any runtime
+// function, for any spelling of the path and any arrangement of symbolic links
+// inside the sandbox.
+//
+// E-enum over the whole runtime surface: the harness walks the package objects
+// of every directory under internal/runtime (functions and receiver functions
+// with their declared parameters), and for every function x every string
+// parameter x every path spelling (absolute, "..", nested "..", repeated
+// separators, through the root, a sibling that has the root's name as prefix,
+// and through each kind of symbolic link placed inside the sandbox) it
+// generates an Ego program that makes exactly that call, prints everything the
+// call returns and, when the call returns a handle (file, database), calls each
+// of the handle's methods and prints those results too. Each program runs alone
+// in a scratch world W/{sandbox,outside,sandbox-evil}, as `ego run --sandbox
+// true` and through the handler of POST /admin/run for a non-administrator.
+// Oracle: afterwards everything in W outside W/sandbox is byte- and
+// metadata-identical, and the output holds no canary that only a file outside
+// the root could have supplied (content, name never spelled, size, time).
 package main
 
 import (
 	"fmt"
+	"os"
+	"os/exec"
+	"path/filepath"
+	"runtime"
 	"sort"
+	"strconv"
+	"strings"
+	"sync"
+	"time"
 
-	"github.com/tucats/ego/internal/language/data"
-	egoruntime "github.com/tucats/ego/internal/runtime"
+	"github.com/tucats/ego/internal/verifrt/report"
 )
 
+// spelling is one way to name something outside the sandbox root. ${W} is the
+// world directory, ${S} the sandbox root (= ${W}/sandbox = working directory).
+type spelling struct {
+	Class string // root-cause class of the spelling
+	Path  string
+	Links bool // needs the world with symbolic links
+	Quick bool // part of the quick tier
+}
+
+func dbl(s string) string { return strings.ReplaceAll(s, "/", "//") }
+
+func spellings() []spelling {
+	var out []spelling
+
+	// targets outside the root, relative to W
+	type tgt struct {
+		rel   string
+		quick map[string]bool
+	}
+
+	q := func(classes ...string) map[string]bool {
+		m := map[string]bool{}
+		for _, c := range classes {
+			m[c] = true
+		}
+
+		return m
+	}
+
+	targets := []tgt{
+		{"outside/secret.txt", q("abs", "dotdot", "nested-dotdot", "separators", "abs-through-root", "abs-separators", "dot-dotdot")},
+		{"outside/sub", q("abs", "dotdot")},
+		{"outside/new.txt", q("abs", "dotdot", "abs-through-root")},
+		{"outside/secret.db", q("abs")},
+		{"outside", q()},
+		{"sandbox-evil/new.txt", q()},
+		{"sandbox-evil", q()},
+	}
+
+	for _, t := range targets {
+		forms := []spelling{
+			{Class: "abs", Path: "${W}/" + t.rel},
+			{Class: "dotdot", Path: "../" + t.rel},
+			{Class: "nested-dotdot", Path: "in/../../" + t.rel},
+			{Class: "separators", Path: "..//" + dbl(t.rel)},
+			{Class: "abs-through-root", Path: "${S}/../" + t.rel},
+			{Class: "abs-separators", Path: "${W}//" + dbl(t.rel)},
+			{Class: "dot-dotdot", Path: "./../" + t.rel},
+			{Class: "trailing-dot", Path: "../" + t.rel + "/."},
+			{Class: "trailing-separator", Path: "../" + t.rel + "/"},
+			{Class: "missing-then-dotdot", Path: "nosuch/../../" + t.rel},
+		}
+
+		for _, f := range forms {
+			f.Quick = t.quick[f.Class]
+			out = append(out, f)
+		}
+	}
+
+	// the parent of the root itself
+	for i, p := range []string{"..", "${W}", "../", "in/../..", "${S}/.."} {
+		c := "dotdot"
+		if strings.HasPrefix(p, "${") {
+			c = "abs"
+		}
+
+		out = append(out, spelling{Class: c, Path: p, Quick: i < 2})
+	}
+
+	// the sibling whose name starts with the root's name
+	out = append(out,
+		spelling{Class: "prefix-sibling", Path: "${S}-evil/secret.txt", Quick: true},
+		spelling{Class: "prefix-sibling", Path: "${S}-evil/new.txt", Quick: true},
+		spelling{Class: "prefix-sibling", Path: "${S}-evil"},
+		spelling{Class: "prefix-sibling", Path: "${S}-evil/" + "sub/../secret.txt"},
+	)
+
+	// through each kind of symbolic link inside the sandbox
+	ln := func(class string, quick int, paths ...string) {
+		for i, p := range paths {
+			out = append(out, spelling{Class: class, Path: p, Links: true, Quick: i < quick})
+		}
+	}
+
+	ln("link-file-abs", 1, "lnfile", "${S}/lnfile", "./lnfile", "in/../lnfile")
+	ln("link-dir-rel", 3, "lndir/secret.txt", "lndir/new.txt", "lndir/sub", "lndir", "lndir/secret.db", "${S}/lndir/secret.txt", "lndir//secret.txt", "lndir/./secret.txt")
+	ln("link-parent", 1, "up/outside/secret.txt", "up/outside/new.txt", "up/outside/sub", "up", "up/sandbox-evil/secret.txt")
+	ln("link-chain", 1, "a/secret.txt", "a/new.txt", "a/sub", "a")
+	ln("link-nested", 1, "in/deep/secret.txt", "in/deep/new.txt", "in/deep/sub", "${S}/in/deep/secret.txt")
+	ln("link-dangling-file", 2, "dangle", "dangle2", "${S}/dangle", "./dangle")
+	ln("link-dangling-dir", 1, "dangledir/x.txt", "dangledir")
+	ln("link-prefix-sibling", 1, "lnevil/secret.txt", "lnevil/new.txt", "lnevil")
+	ln("link-then-dotdot", 2, "lndir/sub/../secret.txt", "in/deep/../outside/secret.txt", "lndir/../outside/secret.txt", "a/sub/../new.txt")
+
+	return out
+}
+
+// kase is one generated call.
+type kase struct {
+	Fn      string `json:"function"`
+	Param   string `json:"parameter"`
+	Pos     int    `json:"position"`
+	Variant int    `json:"variant"`
+	Class   string `json:"spelling_class"`
+	Path    string `json:"path"`
+	Links   bool   `json:"symlinks_in_sandbox"`
+	Mode    string `json:"mode"` // run handler debug
+	Prog    string `json:"program"`
+
+	c callable
+}
+
+func (k kase) key() string {
+	return fmt.Sprintf("%s#%d#%d|%s|%s", k.Fn, k.Pos, k.Variant, k.Path, k.Mode)
+}
+
+type witness struct {
+	kase
+	Effects   []string `json:"effects"`
+	Output    string   `json:"output_excerpt"`
+	Confirmed string   `json:"confirmed"`
+}
+
+type result struct {
+	k       kase
+	effects []effect
+	out     string
+	died    bool
+	begin   bool
+	reached bool
+}
+
+var effectOrder = []string{"read", "list", "stat", "created", "deleted", "modified", "metadata"}
+
+func primary(eff []effect) string {
+	for _, o := range effectOrder {
+		for _, e := range eff {
+			if e.Kind == o {
+				return o
+			}
+		}
+	}
+
+	return "none"
+}
+
+func subst(s, w string) string {
+	s = strings.ReplaceAll(s, "${S}", filepath.Join(w, "sandbox"))
+
+	return strings.ReplaceAll(s, "${W}", w)
+}
+
+// runCase executes one case on a worker (whose world it rebuilds first) and
+// judges it.
+func runCase(w *worker, pristine map[bool]map[string]entry, full map[bool]map[string]entry, k kase, sandbox bool) result {
+	// rebuild only when the previous case left a trace anywhere in the world
+	if cur := snapshot(w.world, true); !sameSnapshot(cur, full[k.Links]) {
+		buildWorld(w.world, k.Links)
+
+		if cur = snapshot(w.world, true); !sameSnapshot(cur, full[k.Links]) {
+			fatal("the rebuilt world differs from the pristine one")
+		}
+	}
+
+	o := w.run(subst(k.Prog, w.world), sandbox)
+
+	res := result{k: k, out: o.Out, died: o.Died}
+	res.begin = strings.Contains(o.Out, "BEGIN")
+	res.reached = strings.Contains(o.Out, "R ") || strings.Contains(o.Out, "ERR")
+	res.effects = append(scanOutput(o.Out), diffOutside(pristine[k.Links], snapshot(w.world, false))...)
+
+	return res
+}
+
+func excerpt(s string) string {
+	s = strings.ReplaceAll(s, strings.Repeat("x", 64), "")
+	if len(s) > 700 {
+		s = s[:700] + "..."
+	}
+
+	return s
+}
+
 func main() {
-	names := []string{"ai", "base64", "cipher", "cmplx", "errors", "exec", "filepath", "fmt", "http", "i18n", "io", "json", "math", "os", "profile", "proxy", "reflect", "rest", "runtime", "sort", "sql", "strconv", "strings", "sync", "tables", "time", "util", "uuid"}
-	for _, n := range names {
-		p := egoruntime.AddPackage(n)
-		if p == nil {
-			fmt.Println("NOPKG", n)
+	if len(os.Args) > 1 && os.Args[1] == "worker" {
+		workerMain()
+
+		return
+	}
+
+	start := time.Now()
+	r := report.New("exploration")
+	scratch := filepath.Join(os.Getenv("VERIF_SCRATCH"), "W")
+
+	if os.Getenv("VERIF_SCRATCH") == "" {
+		fatal("VERIF_SCRATCH is not set")
+	}
+
+	_ = os.MkdirAll(scratch, 0o755)
+	makeCanaryDB(scratch)
+
+	// ---- the surface
+	s := enumerate(os.Getenv("VERIF_REPO"))
+	s.addLibrary(os.Getenv("VERIF_REPO"))
+
+	type fp struct {
+		c        callable
+		pos      int
+		variants int
+	}
+
+	var pairs []fp
+
+	nString, nExcluded := 0, 0
+	exclNames := []string{}
+
+	for _, c := range s.all {
+		d := c.F.Declaration
+		has := false
+
+		for i := 0; i < len(d.Parameters); i++ {
+			if isString(d.Parameters[i]) {
+				has = true
+			}
+		}
+
+		if !has {
 			continue
 		}
-		keys := p.Keys()
-		sort.Strings(keys)
-		for _, k := range keys {
-			v, _ := p.Get(k)
-			switch x := v.(type) {
-			case data.Function:
-				show(n, "", k, x)
-			case *data.Type:
-				ms := x.VerifMethodsC26()
-				mk := []string{}
-				for m := range ms {
-					mk = append(mk, m)
-				}
-				sort.Strings(mk)
-				fmt.Printf("TYPE %s.%s kind=%d native=%q\n", n, k, x.Kind(), x.NativeName())
-				for _, m := range mk {
-					show(n, k, m, ms[m])
-				}
-			default:
-				fmt.Printf("OTHER %s.%s %T\n", n, k, v)
+
+		nString++
+
+		if why := excludedPkgs[c.Pkg]; why != "" {
+			nExcluded++
+
+			continue
+		}
+
+		if why := excludedFuncs[c.key()]; why != "" {
+			nExcluded++
+			exclNames = append(exclNames, c.key())
+
+			continue
+		}
+
+		variants := 1
+
+		for _, p := range d.Parameters {
+			if h := hints[c.key()+"#"+p.Name]; len(h) > variants {
+				variants = len(h)
 			}
+		}
+
+		for i := 0; i < nargs(d); i++ {
+			if isString(d.Parameters[i]) {
+				pairs = append(pairs, fp{c, i, variants})
+			}
+		}
+	}
+
+	sp := spellings()
+	modes := []string{"run", "handler"}
+
+	if r.Thorough() {
+		modes = append(modes, "debug")
+	}
+
+	var cases []kase
+
+	for _, p := range pairs {
+		for v := 0; v < p.variants; v++ {
+			// a hint variant only matters for the parameter that is not the path
+			if v > 0 {
+				if _, ok := hints[p.c.key()+"#"+p.c.F.Declaration.Parameters[p.pos].Name]; ok {
+					continue
+				}
+			}
+
+			for _, x := range sp {
+				if !r.Thorough() && !x.Quick {
+					continue
+				}
+
+				if x.Links && noLinkWorld[p.c.key()] != "" {
+					continue
+				}
+
+				prog := s.program(p.c, p.pos, v, strconv.Quote(x.Path))
+
+				for _, m := range modes {
+					cases = append(cases, kase{Fn: p.c.key(), Param: p.c.F.Declaration.Parameters[p.pos].Name, Pos: p.pos, Variant: v, Class: x.Class, Path: x.Path, Links: x.Links, Mode: m, Prog: prog, c: p.c})
+				}
+			}
+		}
+	}
+
+	// ---- replay
+	if r.Replay != "" {
+		var w witness
+		if err := report.LoadReplay(r.Replay, &w); err != nil {
+			report.Fatal("%v", err)
+		}
+
+		wk := startWorker(scratch, 0, w.Mode)
+		fullW, pristW := worldSnapshots(wk.world)
+		res := runCase(wk, pristW, fullW, w.kase, true)
+		wk.stop()
+
+		fmt.Printf("replay %s %s(%s=%q) mode=%s: effects=%v\n%s\n", w.Fn, w.Fn, w.Param, w.Path, w.Mode, res.effects, excerpt(res.out))
+		r.Eval(1)
+		r.Distinct(w.key())
+		r.Distinct("replay")
+
+		if len(res.effects) > 0 {
+			r.Violation("replayed:"+w.Fn, 1, w, "the recorded case still reaches outside the sandbox: "+describe(res.effects))
+		}
+
+		r.Finish()
+	}
+
+	// ---- workers
+	nRun, nHandler := 12, 4
+	if n := runtime.NumCPU(); n < 16 {
+		nRun, nHandler = max(2, n*3/4), max(1, n/4)
+	}
+
+	var workers []*worker
+
+	for i := 0; i < nRun; i++ {
+		workers = append(workers, startWorker(scratch, i, "run"))
+	}
+
+	for i := 0; i < nHandler; i++ {
+		workers = append(workers, startWorker(scratch, i, "handler"))
+	}
+
+	if r.Thorough() {
+		for i := 0; i < nHandler; i++ {
+			workers = append(workers, startWorker(scratch, i, "debug"))
+		}
+	}
+
+	snaps := map[*worker][2]map[bool]map[string]entry{}
+
+	for _, w := range workers {
+		f, p := worldSnapshots(w.world)
+		snaps[w] = [2]map[bool]map[string]entry{f, p}
+	}
+
+	// ---- self-test of the detector: the same programs with the sandbox off
+	// must be seen reading, listing, stat-ing and creating outside
+	selfTest(s, workers, snaps)
+
+	// ---- the sweep
+	queues := map[string]chan kase{}
+	for _, m := range modes {
+		queues[m] = make(chan kase, 256)
+	}
+
+	go func() {
+		for _, k := range cases {
+			queues[k.Mode] <- k
+		}
+
+		for _, q := range queues {
+			close(q)
+		}
+	}()
+
+	var (
+		mu      sync.Mutex
+		results []result // only the ones with effects are kept
+		wg      sync.WaitGroup
+		stats   = map[string]int64{}
+		reach   = map[string]bool{}
+	)
+
+	for _, w := range workers {
+		w := w
+
+		wg.Add(1)
+
+		go func() {
+			defer wg.Done()
+
+			for k := range queues[w.mode] {
+				res := runCase(w, snaps[w][1], snaps[w][0], k, true)
+
+				r.Eval(1)
+				r.Distinct(k.key())
+
+				mu.Lock()
+				stats["cases_"+k.Mode]++
+
+				if res.died {
+					stats["cases_worker_died"]++
+				}
+
+				if res.begin {
+					stats["programs_started"]++
+				} else if !res.died {
+					stats["programs_not_compiled"]++
+				}
+
+				if res.reached {
+					reach[k.Fn] = true
+				}
+
+				if len(res.effects) > 0 {
+					res.out = excerpt(res.out)
+					results = append(results, res)
+				}
+				mu.Unlock()
+			}
+		}()
+	}
+
+	wg.Wait()
+
+	for _, w := range workers {
+		w.stop()
+	}
+
+	// ---- cells
+	// A function that fails on a plain absolute or ".." spelling does not route
+	// that parameter through the sandbox at all: one cell per function. A
+	// function that only fails for a special spelling class shares the cell of
+	// that class (the defect is in the common join/resolve code).
+	sort.Slice(results, func(i, j int) bool { return results[i].k.key() < results[j].k.key() })
+
+	unconfined := map[string]bool{}
+
+	for _, res := range results {
+		if res.k.Class == "abs" || res.k.Class == "dotdot" {
+			unconfined[res.k.Fn+"|"+res.k.Mode] = true
+		}
+	}
+
+	type cellInfo struct {
+		list []result
+	}
+
+	cells := map[string]*cellInfo{}
+
+	for _, res := range results {
+		var cell string
+
+		// the same function escaping in both modes is one defect
+		if unconfined[res.k.Fn+"|"+res.k.Mode] {
+			cell = "unconfined:" + res.k.Fn
+			if !unconfined[res.k.Fn+"|run"] {
+				cell += ":" + res.k.Mode + "-only"
+			}
+		} else {
+			cell = res.k.Class + ":" + primary(res.effects)
+		}
+
+		if cells[cell] == nil {
+			cells[cell] = &cellInfo{}
+		}
+
+		cells[cell].list = append(cells[cell].list, res)
+	}
+
+	names := make([]string, 0, len(cells))
+	for c := range cells {
+		names = append(names, c)
+	}
+
+	sort.Strings(names)
+
+	// ---- confirmation in a fresh process and a fresh world, smallest first
+	confirmDir := filepath.Join(scratch, "confirm")
+	nConfirmed, nUnconfirmed := 0, 0
+
+	for _, cell := range names {
+		ci := cells[cell]
+
+		sort.SliceStable(ci.list, func(i, j int) bool { return len(ci.list[i].k.Prog) < len(ci.list[j].k.Prog) })
+
+		confirmed := false
+
+		for i, res := range ci.list {
+			if i >= 3 {
+				break
+			}
+
+			eff, out, how := confirm(confirmDir, res.k)
+			if len(eff) == 0 {
+				nUnconfirmed++
+
+				fmt.Printf("UNCONFIRMED %s: %s(%s=%q) mode=%s batch effects %s; fresh output:\n%s\n", cell, res.k.Fn, res.k.Param, res.k.Path, res.k.Mode, describe(res.effects), excerpt(out))
+
+				continue
+			}
+
+			nConfirmed++
+			confirmed = true
+
+			wit := witness{kase: res.k, Effects: effectStrings(eff), Output: excerpt(out), Confirmed: how}
+			msg := fmt.Sprintf("%s(%s=%q) under the sandbox (%s) reached outside the root: %s", res.k.Fn, res.k.Param, res.k.Path, res.k.Mode, describe(eff))
+
+			for range ci.list {
+				r.Violation(cell, len(res.k.Prog), wit, msg)
+			}
+
+			break
+		}
+
+		if !confirmed {
+			// the batch run saw an effect that a fresh process does not show:
+			// the harness cannot take a verdict from it
+			r.Capped(fmt.Sprintf("cell %s: %d batch observations not reproduced in a fresh process (not reported)", cell, len(ci.list)))
+		}
+	}
+
+	_ = os.RemoveAll(confirmDir)
+
+	// ---- evidence
+	reached := 0
+
+	for _, p := range pairs {
+		if reach[p.c.key()] {
+			reached++
+		}
+	}
+
+	sort.Strings(exclNames)
+
+	r.Rule("one case = (runtime function or receiver function, one of its string parameters, hint variant of the other parameters, path spelling, execution mode); every case is distinct; each case is its own program run alone in a rebuilt world")
+	r.Set("runtime_packages", len(s.pkgNames))
+	r.Set("runtime_dirs_without_package", strings.Join(s.missing, ","))
+	r.Set("functions_declared", len(s.all))
+	r.Set("functions_with_string_parameter", nString)
+	r.Set("functions_excluded", nExcluded)
+	r.Set("excluded", strings.Join(exclNames, ",")+",packages:"+strings.Join(sortedKeys(excludedPkgs), ","))
+	r.Set("function_parameter_pairs", len(pairs))
+	r.Set("spellings", len(sp))
+	r.Set("spellings_in_tier", len(cases)/max(1, len(modes))/max(1, len(pairs)))
+	r.Set("violating_cases", len(results))
+	r.Set("confirmed_fresh", nConfirmed)
+	r.Set("unconfirmed_fresh", nUnconfirmed)
+	r.Set("worker_restarts", deaths.Load())
+	r.Set("wall_s", int(time.Since(start).Seconds()))
+
+	for k, v := range stats {
+		r.Set(k, v)
+	}
+
+	for i, k := range cases {
+		if i%(len(cases)/6+1) == 0 {
+			r.Sample(map[string]any{"function": k.Fn, "parameter": k.Param, "path": k.Path, "class": k.Class, "mode": k.Mode})
+		}
+	}
+
+	r.Assume(
+		"the harness runs as a user that may create, chmod and chown files in its scratch directory",
+		"run-mode cases repeat main.go's app.Run in batch worker processes (cwd and environment reset per case); every reported cell is confirmed by a fresh `ego run --sandbox true` process / a fresh handler process in a fresh world",
+		"reads are detected through canaries in the program's output (content at the start of the file, unspelled entry names, a distinctive size and modification time); a read whose result never reaches a printable value is not seen",
+		"ego.runtime.sandbox.path is set with --set (run) / settings.SetDefault as `ego server --sandbox-path` does (handler)",
+	)
+
+	r.Finish()
+}
+
+func sortedKeys(m map[string]string) []string {
+	var out []string
+	for k := range m {
+		out = append(out, k)
+	}
+
+	sort.Strings(out)
+
+	return out
+}
+
+func effectStrings(eff []effect) []string {
+	var out []string
+	for _, e := range eff {
+		out = append(out, e.Kind+": "+e.Detail)
+	}
+
+	return out
+}
+
+func describe(eff []effect) string {
+	s := strings.Join(effectStrings(eff), "; ")
+	if len(s) > 400 {
+		s = s[:400] + "..."
+	}
+
+	return s
+}
+
+// worldSnapshots builds both variants of a worker's world once and returns
+// their full and outside-only snapshots.
+func worldSnapshots(w string) (full, outside map[bool]map[string]entry) {
+	full = map[bool]map[string]entry{}
+	outside = map[bool]map[string]entry{}
+
+	for _, l := range []bool{false, true} {
+		buildWorld(w, l)
+		full[l] = snapshot(w, true)
+		outside[l] = snapshot(w, false)
+	}
+
+	return full, outside
+}
+
+// selfTest shows that the detector sees an escape when there is one: with the
+// sandbox switched off (run) / for an administrator (handler) the probe
+// programs do reach outside and every kind of effect must be reported.
+func selfTest(s *surface, workers []*worker, snaps map[*worker][2]map[bool]map[string]entry) {
+	find := func(key string) callable {
+		for _, c := range s.all {
+			if c.key() == key {
+				return c
+			}
+		}
+
+		fatal("self-test: the runtime no longer declares %s", key)
+
+		return callable{}
+	}
+
+	probes := []struct {
+		fn, path, want string
+	}{
+		{"os.ReadFile", "${W}/outside/secret.txt", "read"},
+		{"io.ReadDir", "../outside", "list"},
+		{"os.Stat", "${W}/outside/secret.txt", "stat"},
+		{"os.WriteFile", "../outside/new.txt", "created"},
+		{"os.WriteFile", "${W}/outside/secret.txt", "modified"},
+	}
+
+	seen := map[string]bool{}
+
+	for _, w := range workers {
+		if seen[w.mode] {
+			continue
+		}
+
+		seen[w.mode] = true
+
+		for _, p := range probes {
+			c := find(p.fn)
+			k := kase{Fn: p.fn, Pos: 0, Path: p.path, Mode: w.mode, Prog: s.program(c, 0, 0, strconv.Quote(p.path)), c: c}
+
+			res := runCase(w, snaps[w][1], snaps[w][0], k, false)
+
+			ok := false
+
+			for _, e := range res.effects {
+				if e.Kind == p.want {
+					ok = true
+				}
+			}
+
+			if !ok {
+				fatal("self-test (%s, sandbox off): %s(%q) should have shown %q, saw %v; output:\n%s", w.mode, p.fn, p.path, p.want, res.effects, excerpt(res.out))
+			}
+		}
+
+		// and inside the sandbox the program can read its own file
+		c := find("os.ReadFile")
+		k := kase{Fn: "os.ReadFile", Path: "in.txt", Mode: w.mode, Prog: s.program(c, 0, 0, `"in.txt"`), c: c}
+
+		res := runCase(w, snaps[w][1], snaps[w][0], k, true)
+		if !strings.Contains(res.out, insideMarker) || len(res.effects) > 0 {
+			fatal("self-test (%s): a sandboxed program cannot read its own file, or is reported: %v\n%s", w.mode, res.effects, excerpt(res.out))
 		}
 	}
 }
 
-func show(pkg, typ, name string, f data.Function) {
-	d := f.Declaration
-	if d == nil {
-		fmt.Printf("FUNC %s.%s.%s NODECL\n", pkg, typ, name)
-		return
+// confirm re-runs one case alone: run mode in a fresh `ego` process, handler
+// modes in a fresh worker process; both in a new world.
+func confirm(dir string, k kase) ([]effect, string, string) {
+	_ = os.RemoveAll(dir)
+
+	if k.Mode != "run" {
+		w := startWorker(dir, 0, k.Mode)
+		full, outside := worldSnapshots(w.world)
+		res := runCase(w, outside, full, k, true)
+		w.stop()
+
+		return res.effects, res.out, "fresh handler process"
 	}
-	s := ""
-	for i, p := range d.Parameters {
-		if i > 0 {
-			s += ", "
-		}
-		t := "?"
-		if p.Type != nil {
-			t = p.Type.String()
-		}
-		s += p.Name + " " + t
-		if p.Sandboxed {
-			s += "[S]"
-		}
+
+	ego := os.Getenv("VERIF_EGO")
+	if ego == "" {
+		fatal("VERIF_EGO is not set (the check config needs \"ego\": true)")
 	}
-	r := ""
-	for _, t := range d.Returns {
-		if t != nil {
-			r += t.String() + ","
-		}
+
+	world := filepath.Join(dir, "p", "q", "W")
+	home := filepath.Join(dir, "home")
+	_ = os.MkdirAll(home, 0o755)
+	_ = os.MkdirAll(filepath.Dir(world), 0o755)
+
+	buildWorld(world, k.Links)
+	before := snapshot(world, false)
+
+	file := filepath.Join(dir, "case.ego")
+	if err := os.WriteFile(file, []byte(subst(k.Prog, world)), 0o644); err != nil {
+		fatal("%v", err)
 	}
-	fmt.Printf("FUNC %s.%s.%s(%s) -> %s variadic=%v argc=%v sandboxedFn=%v native=%v ext=%v\n", pkg, typ, name, s, r, d.Variadic, d.ArgCount, f.Sandboxed, f.IsNative, f.Extension)
+
+	root := filepath.Join(world, "sandbox")
+	cmd := exec.Command(ego, "--set", "ego.runtime.sandbox.path="+root, "--set", "ego.compiler.extensions=true", "run", "--sandbox", "true", file)
+	cmd.Dir = root
+	cmd.Env = append(os.Environ(), "HOME="+home)
+
+	done := make(chan []byte, 1)
+
+	go func() {
+		b, _ := cmd.CombinedOutput()
+		done <- b
+	}()
+
+	var out []byte
+
+	select {
+	case out = <-done:
+	case <-time.After(jobWatchdog):
+		if cmd.Process != nil {
+			_ = cmd.Process.Kill()
+		}
+
+		out = <-done
+	}
+
+	eff := append(scanOutput(string(out)), diffOutside(before, snapshot(world, false))...)
+
+	return eff, string(out), "fresh `ego --set ego.runtime.sandbox.path=<root> run --sandbox true` process"
 }
